@@ -525,6 +525,9 @@ class Facts:
         self.foreign_enums = {e["path"]: {v["discr"]: v["name"] for v in e["variants"]} for e in self.j.get("foreign_enums", [])}
         self.impls = self.j["impls"]
         self.fns = {f["path"]: f for f in self.j["fns"]}
+        for sig in self.fns.values():
+            # named lifetimes of reference parameters say nothing the rules use: `&'a mut T` is read as `&mut T`
+            sig["inputs"] = [re.sub(r"&'[a-z_0-9]+ ", "&", t) for t in sig.get("inputs", [])]
         self._normalise_async_shape()
 
     def _normalise_async_shape(self):
